@@ -45,6 +45,19 @@ theorem C06_pin_txidAssignments :
       ["txid++", "txid = id + 1", "txid++", "txid++", "txid = id + 1", "txid++", "txid++", "txid = id + 1", "txid++"] := by
   decide
 
+/-- F21 repair: the `updateTXTimestamp` calls of the listeners, in source order — one with the
+    unchanged software reading `&txt0` in front of every `continue` that ends an iteration after
+    `handleRequest` without a reply (IP: no cookie, failed write; SCION: path not reversible, no
+    cookie, failed write: `stepEv code | .unsent`), and the one after the send with `&txt1` -/
+theorem C06_pin_updateTxCalls :
+    Gen.Server.updateTxCalls_runIPServer =
+      ["updateTXTimestamp(clientID, rxt, &txt0)", "updateTXTimestamp(clientID, rxt, &txt0)",
+       "updateTXTimestamp(clientID, rxt, &txt1)"] ∧
+    Gen.Server.updateTxCalls_runSCIONServer =
+      ["updateTXTimestamp(clientID, rxt, &txt0)", "updateTXTimestamp(clientID, rxt, &txt0)",
+       "updateTXTimestamp(clientID, rxt, &txt0)", "updateTXTimestamp(clientID, rxt, &txt1)"] := by
+  decide
+
 /-- C03: no statement after a send reads the clock (the model's step after the write has no
     clock input) -/
 theorem C03_pin_noClockAfterSend :
@@ -191,10 +204,10 @@ theorem C09_reads_bounded (cfg : Cfg) (s : LSock) (txt0 : Int) (kb : KB) :
     datagram's own kernel timestamp if it was delivered in time and `txt0` otherwise —
     whatever was late or lost before. -/
 theorem C06_sendRead_own_or_fallback (sr : Bool) (s : LSock) (al : Aligned s) (txt0 : Int) (kb : KB) :
-    Aligned (sendRead ⟨true, sr⟩ s txt0 kb).sock ∧
-    (sendRead ⟨true, sr⟩ s txt0 kb).dgram = s.sent ∧
-    (∀ t, kb = .intime t → (sendRead ⟨true, sr⟩ s txt0 kb).txt1 = t) ∧
-    (kb.own = none → (sendRead ⟨true, sr⟩ s txt0 kb).txt1 = txt0) := by
+    Aligned (sendRead ⟨true, sr, true⟩ s txt0 kb).sock ∧
+    (sendRead ⟨true, sr, true⟩ s txt0 kb).dgram = s.sent ∧
+    (∀ t, kb = .intime t → (sendRead ⟨true, sr, true⟩ s txt0 kb).txt1 = t) ∧
+    (kb.own = none → (sendRead ⟨true, sr, true⟩ s txt0 kb).txt1 = txt0) := by
   obtain ⟨a, _, _, d, e, _⟩ := sendRead_fixed sr s al txt0 kb
   refine ⟨a, d, ?_, ?_⟩
   · intro t h; rw [e, h]
@@ -229,7 +242,7 @@ theorem C06_tx_inv_init (cap icap : Nat) : WInv cap icap World.init := by
     that reply carried and its transmit time is the kernel transmit timestamp of *that reply's
     own datagram*, delivered in time (forced at least 1 ns later than the receive time) -/
 def Good (outs : List Out) (cl : Nat) (e : Entry) : Prop :=
-  ∃ o ∈ outs, o.cl = cl ∧ o.reply ≠ none ∧ e.rx = ofTime o.rxt ∧
+  ∃ o ∈ outs, o.cl = cl ∧ o.sent = true ∧ o.reply ≠ none ∧ e.rx = ofTime o.rxt ∧
     ∃ t, o.own = some t ∧ e.tx = ofTime (utxTxt o.rxt t)
 
 /-- everything on record is `Good` -/
@@ -267,6 +280,13 @@ theorem C06_tx_inv_step (w : World) (inv : WInv cap icap w) (e : Ev) :
       · exact inv.socks k
     · exact inv.store
   | drop sk => exact inv
+  | unsent sk cl req krx nowRx now =>
+    constructor
+    · intro k; exact inv.socks k
+    · simp only [stepEv, code, if_true]
+      apply inv0_updateTX
+      · exact inv0_handleRequestG true cap icap hcap hic hic2 _ inv.store _ _ _ _ (fun _ _ _ _ _ => trivial)
+      · intros; trivial
 
 theorem C06_tx_inv_run : ∀ (evs : List Ev) (w : World), WInv cap icap w →
     WInv cap icap (runEvs code cap icap w evs).1 := by
@@ -305,6 +325,7 @@ theorem C06_tx_step_value (w : World) (inv : WInv cap icap w) (e : Ev) :
     exact a _ rfl
   | aux sk kb => intro h; simp [stepEv, Out.none] at h
   | drop sk => intro h; simp [stepEv, Out.none] at h
+  | unsent sk cl req krx nowRx now => intro h; simp [stepEv, Out.none] at h
 
 /-- **value handed to the store, all histories**: for every datagram written in any history the
     value handed to `updateTXTimestamp` is the kernel transmit timestamp *of that very datagram*
@@ -386,17 +407,68 @@ theorem C06_tx_undelivered_dropped (w : World) (inv : WInv cap icap w) (sk cl : 
   obtain ⟨t, ht, _⟩ := C06_tx_recorded_or_dropped cap icap hcap hic hic2 w inv sk cl req krx nowRx now kb it e hfind he hrx
   rw [ht] at hkb; simp [KB.own] at hkb
 
+omit hcap hic hic2 in
+/-- For the store, the repaired listeners' "recorded, then nothing sent" iteration is the NTP
+    iteration whose transmit timestamp is never delivered: both hand `txt0` itself to
+    `updateTXTimestamp` (the socket, untouched here, is the only difference). -/
+theorem unsent_store_eq (w : World) (inv : WInv cap icap w) (sk cl : Nat) (req : Req)
+    (krx : Option Int) (nowRx now : Int) :
+    (stepEv code cap icap w (.unsent sk cl req krx nowRx now)).1.store =
+      (stepEv code cap icap w (.ntp sk cl req krx nowRx now .never)).1.store ∧
+    (stepEv code cap icap w (.unsent sk cl req krx nowRx now)).2.rxt =
+      (stepEv code cap icap w (.ntp sk cl req krx nowRx now .never)).2.rxt := by
+  have h := (C06_sendRead_own_or_fallback true (w.socks sk) (inv.socks sk)
+    (handleRequest cap icap w.store cl req (krx.getD nowRx) now).txt .never).2.2.2 rfl
+  simp only [stepEv, code, if_true] at h ⊢
+  rw [h]
+  constructor <;> first | rfl | trivial
+
+/-- **an exchange whose reply was not sent is dropped** (repaired code, any reachable state): after
+    an iteration in which `handleRequest` recorded the exchange and then no datagram was written
+    — irreversible SCION path, failed or short write, no cookie — no exchange with that receive
+    timestamp is on record for the client: a request quoting it is answered in basic mode
+    (`C06_interleaved_iff`), however the client came by the value. -/
+theorem C06_tx_unsent_dropped (w : World) (inv : WInv cap icap w) (sk cl : Nat) (req : Req)
+    (krx : Option Int) (nowRx now : Int) :
+    let r := stepEv code cap icap w (.unsent sk cl req krx nowRx now)
+    r.2.sent = false ∧ r.2.reply = none ∧ r.1.socks = w.socks ∧
+    ∀ it e, r.1.store.items.find cl = some it → e ∈ it.buf → e.rx ≠ ofTime r.2.rxt := by
+  intro r
+  refine ⟨rfl, rfl, rfl, ?_⟩
+  obtain ⟨hs, hr⟩ := unsent_store_eq cap icap w inv sk cl req krx nowRx now
+  intro it e hf he
+  simp only [r] at hf ⊢
+  rw [hs] at hf
+  rw [hr]
+  exact C06_tx_undelivered_dropped cap icap hcap hic hic2 w inv sk cl req krx nowRx now .never rfl it e hf he
+
 theorem C06_tx_record_step (w : World) (inv : WInv cap icap w) (pre : List Out) (h : RecInv w pre) (ev : Ev) :
     RecInv (stepEv code cap icap w ev).1 (pre ++ [(stepEv code cap icap w ev).2]) := by
   cases ev with
   | aux sk kb => intro cl it e hf he; exact good_mono_left _ (h cl it e hf he)
   | drop sk => intro cl it e hf he; exact good_mono_left _ (h cl it e hf he)
+  | unsent sk cl req krx nowRx now =>
+    intro k it e hf he
+    apply good_mono_left
+    have hdrop := (C06_tx_unsent_dropped cap icap hcap hic hic2 w inv sk cl req krx nowRx now).2.2.2
+    have inv1 : Inv0 (fun _ => True) cap icap (handleRequestG true cap icap w.store cl req (krx.getD nowRx) now).st :=
+      inv0_handleRequestG true cap icap hcap hic hic2 _ inv.store _ _ _ _ (fun _ _ _ _ _ => trivial)
+    have hecho := (C06_rx_echo_unique true cap icap hic2 w.store inv.store cl req (krx.getD nowRx) now).1
+    have hk : ¬ (k = cl ∧ e.rx = ofTime (stepEv code cap icap w (.unsent sk cl req krx nowRx now)).2.rxt) := by
+      rintro ⟨rfl, hrx⟩; exact hdrop it e hf he hrx
+    simp only [stepEv, handleRequest, code, if_true] at hf hk
+    rcases utx_frame _ inv1.wf cl _ _ k it e hf he with ⟨it1, hf1, he1⟩ | hx
+    · rcases hr_frame true cap icap hcap w.store inv.store.wf cl req (krx.getD nowRx) now k it1 e hf1 he1 with ⟨it0, hf0, he0⟩ | hx
+      · exact h k it0 e hf0 he0
+      · rw [hecho] at hx; exact absurd hx hk
+    · exact absurd hx hk
   | ntp sk cl req krx nowRx now kb =>
     intro k it e hf he
     by_cases hk : k = cl ∧ e.rx = ofTime (stepEv code cap icap w (.ntp sk cl req krx nowRx now kb)).2.rxt
     · obtain ⟨rfl, hrx⟩ := hk
       obtain ⟨t, ht, htx, _⟩ := C06_tx_recorded_or_dropped cap icap hcap hic hic2 w inv sk k req krx nowRx now kb it e hf he hrx
-      refine ⟨_, List.mem_append_right _ List.mem_cons_self, ?_, ?_, hrx, t, ?_, htx⟩
+      refine ⟨_, List.mem_append_right _ List.mem_cons_self, ?_, ?_, ?_, hrx, t, ?_, htx⟩
+      · simp [stepEv]
       · simp [stepEv]
       · simp [stepEv]
       · simp [stepEv, ht, KB.own]
@@ -437,7 +509,7 @@ theorem C06_tx_interleaved_serves_kernel_stamp (evs : List Ev) (sk cl : Nat) (re
     let h := runEvs code cap icap World.init evs
     let r := stepEv code cap icap h.1 (.ntp sk cl req krx nowRx now kb)
     ∀ rep, r.2.reply = some rep → rep.inter = true →
-      ∃ o ∈ h.2, o.cl = cl ∧ o.reply ≠ none ∧ req.org = ofTime o.rxt ∧
+      ∃ o ∈ h.2, o.cl = cl ∧ o.sent = true ∧ o.reply ≠ none ∧ req.org = ofTime o.rxt ∧
         ∃ t, o.own = some t ∧ rep.tx = ofTime (utxTxt o.rxt t) := by
   intro h r rep hrep hi
   have inv := C06_tx_inv_run cap icap hcap hic hic2 evs World.init (C06_tx_inv_init cap icap)
@@ -448,8 +520,29 @@ theorem C06_tx_interleaved_serves_kernel_stamp (evs : List Ev) (sk cl : Nat) (re
   subst hrep
   obtain ⟨_, it, e, hf, he, hrx, htx, _⟩ :=
     C06_interleaved_shape true cap icap h.1.store inv.store cl req (krx.getD nowRx) now hi
-  obtain ⟨o, ho, a, b, c, t, d, f⟩ := hrec cl it e hf he
-  exact ⟨o, ho, a, b, by rw [← hrx, c], t, d, by rw [htx, f]⟩
+  obtain ⟨o, ho, a, a', b, c, t, d, f⟩ := hrec cl it e hf he
+  exact ⟨o, ho, a, a', b, by rw [← hrx, c], t, d, by rw [htx, f]⟩
+
+/-- **an unsent exchange is never served** (repaired code): the request that follows a "recorded,
+    nothing sent" iteration of the same client and quotes that exchange's receive timestamp as
+    its origin — however it came by the value — is answered in basic mode. -/
+theorem C06_tx_unsent_not_served (w : World) (inv : WInv cap icap w) (sk sk' cl : Nat) (req req' : Req)
+    (krx krx' : Option Int) (nowRx now nowRx' now' : Int) (kb : KB) :
+    let r := stepEv code cap icap w (.unsent sk cl req krx nowRx now)
+    let r' := stepEv code cap icap r.1 (.ntp sk' cl req' krx' nowRx' now' kb)
+    req'.org = ofTime r.2.rxt → ∀ rep, r'.2.reply = some rep → rep.inter = false := by
+  intro r r' horg rep hrep
+  have inv' := C06_tx_inv_step cap icap hcap hic hic2 w inv (.unsent sk cl req krx nowRx now)
+  have hdrop := (C06_tx_unsent_dropped cap icap hcap hic hic2 w inv sk cl req krx nowRx now).2.2.2
+  simp only [r', stepEv, handleRequest, Option.some.injEq] at hrep
+  subst hrep
+  cases hi : (handleRequestG true cap icap r.1.store cl req' (krx'.getD nowRx') now').reply.inter with
+  | false => rfl
+  | true =>
+    exfalso
+    obtain ⟨_, it, e, hf, he, hrx, _⟩ :=
+      C06_interleaved_shape true cap icap r.1.store inv'.store cl req' (krx'.getD nowRx') now' hi
+    exact hdrop it e hf he (by rw [hrx, horg])
 
 omit hcap hic hic2 in
 /-- **C03, server side**: when no kernel timestamp is available for a reply, the value handed to
@@ -481,7 +574,7 @@ theorem C06_tx_interleaved_serves_kernel_stamp_real (evs : List Ev) (sk cl : Nat
     let h := runEvs code tssCap tssItemCap World.init evs
     let r := stepEv code tssCap tssItemCap h.1 (.ntp sk cl req krx nowRx now kb)
     ∀ rep, r.2.reply = some rep → rep.inter = true →
-      ∃ o ∈ h.2, o.cl = cl ∧ o.reply ≠ none ∧ req.org = ofTime o.rxt ∧
+      ∃ o ∈ h.2, o.cl = cl ∧ o.sent = true ∧ o.reply ≠ none ∧ req.org = ofTime o.rxt ∧
         ∃ t, o.own = some t ∧ rep.tx = ofTime (utxTxt o.rxt t) :=
   C06_tx_interleaved_serves_kernel_stamp tssCap tssItemCap (by decide) (by decide) (by decide) evs sk cl req krx nowRx now kb
 
@@ -573,7 +666,7 @@ theorem C06_old_code_partial (s : LSock) (hq : s.queue = []) (hp : s.pending = [
     discarded there): a listener whose SCMP branch writes without reading records, after one
     echo reply, every NTP reply with the timestamp of the datagram written before it. -/
 theorem C06_aux_branches_must_read_counterexample :
-    let cfg : Cfg := ⟨true, false⟩
+    let cfg : Cfg := ⟨true, false, true⟩
     let e := stepEv cfg tssCap tssItemCap World.init (.aux 0 (.intime (f20T - 1000000)))
     let a := stepEv cfg tssCap tssItemCap e.1 (.ntp 0 1 (f20req 0 ⟨0, 0⟩) (some f20T) 0 (f20T + 1000) (.intime (f20T + 5000)))
     let a' := stepEv code tssCap tssItemCap (stepEv code tssCap tssItemCap World.init (.aux 0 (.intime (f20T - 1000000)))).1
@@ -581,9 +674,41 @@ theorem C06_aux_branches_must_read_counterexample :
     a.2.txt1 = f20T - 1000000 ∧ a.2.utx = f20T + 1 ∧ a'.2.txt1 = f20T + 5000 ∧ a'.2.utx = f20T + 5000 := by
   decide
 
+/-! ### finding F21: an exchange recorded by `handleRequest` whose reply is then not sent
+
+  After `handleRequest` the listeners could end the iteration without a datagram and without
+  `updateTXTimestamp` (`scionLayer.Path.Reverse()` fails — runSCIONServer only, reachable with one
+  datagram from the network —, the write fails or is short, no cookie could be encrypted). The
+  exchange stayed on record as (rx, software `txt0`); a later request of the same client whose
+  origin equals that rx was served in interleaved mode with `txt0` as "the transmit time recorded
+  for the earlier reply" — of a reply that never existed. -/
+
+/-- exchange A of client 1 (recorded, nothing sent), then B quoting A's receive timestamp -/
+def f21run (cfg : Cfg) : List Out :=
+  let a := stepEv cfg tssCap tssItemCap World.init (.unsent 0 1 (f20req 0 ⟨0, 0⟩) (some f20T) f20T (f20T + 1000))
+  let b := stepEv cfg tssCap tssItemCap a.1
+    (.ntp 0 1 (f20req 1 (ofTime a.2.rxt)) (some (f20T + 1000000)) 0 (f20T + 1001000) (.intime (f20T + 1005000)))
+  [a.2, b.2]
+
+/-- Code before the repair: nothing was sent for A (no datagram, no reply), yet B is answered in
+    interleaved mode, with A's software reading `txt0` (rx + 1 µs here) as transmit timestamp. -/
+theorem C06_old_code_unsent_exchange_served_counterexample :
+    (f21run codeUnsentOld).map (fun o => (o.sent, o.reply.map (·.inter))) = [(false, none), (true, some true)] ∧
+    ((f21run codeUnsentOld)[1]?.bind (·.reply)).map (·.tx) = some (ofTime (f20T + 1000)) := by
+  decide
+
+/-- The repaired code on the same history: A is taken off the record, B is answered in basic mode. -/
+theorem C06_f21_repaired :
+    (f21run code).map (fun o => (o.sent, o.reply.map (·.inter))) = [(false, none), (true, some false)] := by
+  decide
+
 /-! Non-vacuity: reachable worlds satisfy `WInv`; the histories above exercise every `KB`. -/
 example : WInv tssCap tssItemCap World.init := C06_tx_inv_init _ _
 example : (f20run code).length = 3 := by decide
+/-- the "recorded, nothing sent" event does occur in a history and did record the exchange
+    (hypotheses of `C06_tx_unsent_dropped` / `C06_tx_unsent_not_served`; the all-histories theorems
+    quantify over event lists that may contain it) -/
+example : ((f21run code)[0]?.map (fun o => (o.unsent, o.rxt, o.txt0))) = some (true, f20T, f20T + 1000) := by decide
 /-- an interleaved reply does occur after a history (hypothesis of `C06_tx_interleaved_serves_kernel_stamp`) -/
 example : ((f20run code)[2]?.bind (·.reply)).map (·.inter) = some true := by decide
 
